@@ -26,6 +26,11 @@ theorem code_facts :
       "NonZeroU128", "NonZeroI128", "NonZeroUsize", "NonZeroIsize", "Wrapping"] :=
   ⟨by decide, by decide, by decide, by decide, by decide, by decide, by decide, by decide, by decide, by decide, by decide, by decide⟩
 
+/-- **C17.attr_parse_facts** — what attr.rs must say NOW: the attribute's arguments are stored as parsed (the meaning of `ret` /
+`err` does not depend on what was written before them: their default level is taken at expansion time, from the complete
+argument set), an event's level defaults to the given default, the span's to INFO -/
+theorem attr_parse_facts : argsStoredAsParsed = true ∧ levelDefaulting = true := ⟨by decide, by decide⟩
+
 /-- **C17.fields_spec** — for ANY parameter list, skip list and custom fields: the span's fields are the
 parameters that are neither skipped nor named by a custom field, in declaration order (through `Value` if
 the type is in the table, else through Debug), followed by the custom fields in their order -/
